@@ -365,6 +365,10 @@ def op_export(ctx, w, op):
     ctx.checked()
     ctx.probe("export_file_reloaded")
     m2 = qu.quantized_model_from_json(model.to_json())
+    if not os.path.exists(fn):
+      ctx.violation("export|file-not-written",
+                    "a filename was given but no file exists after the export")
+      return
     m2.load_weights(fn)
     if not M.same_weights(after, m2.get_weights()):
       ctx.violation("export|file-does-not-hold-exported-weights",
@@ -701,7 +705,8 @@ def directed():
   for i, (kind, layers) in enumerate(models):
     out.append({"label": "directed:%d:%s" % (i, "+".join(
         l["t"] for l in layers)), "seed": 1,
-                "world": {"input": kind, "layers": layers, "wseed": 11 + i},
+                "world": {"input": kind, "layers": layers, "wseed": 11 + i,
+                          "out": ["dense", "qdense", "none"][i % 3]},
                 "ops": [{"k": "CRASH_ALL"}, {"k": "EXPORT", "file": True},
                         {"k": "PERTURB", "seed": 4, "scale": 1.0},
                         {"k": "EXPORT", "file": False}]})
